@@ -74,6 +74,15 @@ impl Rng {
     }
 }
 
+/// path of the monitor binary for re-spawning workers; `GXV_EXE` overrides `current_exe()`, which names the
+/// tool instead of the program when the monitor runs under valgrind
+pub fn self_exe() -> std::io::Result<std::path::PathBuf> {
+    match std::env::var_os("GXV_EXE") {
+        Some(p) => Ok(p.into()),
+        None => std::env::current_exe(),
+    }
+}
+
 pub fn hash_of<H: Hash>(h: &H) -> u64 {
     let mut s = std::collections::hash_map::DefaultHasher::new();
     h.hash(&mut s);
